@@ -36,10 +36,14 @@ type Ctx struct {
 	// helpers extracted from a single call site are analysed as part of their
 	// caller: linked maps that call expression to the callee, and the callee's
 	// declaration gets the call expression as its parent (see link).
-	linked    map[*ast.CallExpr]*FuncInfo
-	linkedTo  map[*FuncInfo]*ast.CallExpr
-	requested map[string]bool
-	idx       map[*packages.Package]*pkgIndex
+	linked   map[*ast.CallExpr]*FuncInfo
+	linkedTo map[*FuncInfo]*ast.CallExpr
+	// successRet: for a linked helper with several results whose last result
+	// says whether it succeeded (bool true / nil error), the one return
+	// statement that reports success.
+	successRet map[*ast.CallExpr]*ast.ReturnStmt
+	requested  map[string]bool
+	idx        map[*packages.Package]*pkgIndex
 
 	Renamed []string // renamed functions recognised by signature
 	// load configuration (for evidence)
@@ -65,7 +69,7 @@ func loadCtx(repo, tier string, extraEnv []string, buildFlags []string) (*Ctx, e
 		return nil, fmt.Errorf("packages.Load: %v", err)
 	}
 	c := &Ctx{Repo: repo, Tier: tier, funcs: map[string]*FuncInfo{}, LoadEnv: extraEnv, LoadFlags: buildFlags, FileSet: map[string][]string{},
-		linked: map[*ast.CallExpr]*FuncInfo{}, linkedTo: map[*FuncInfo]*ast.CallExpr{}, requested: map[string]bool{}, idx: map[*packages.Package]*pkgIndex{}}
+		linked: map[*ast.CallExpr]*FuncInfo{}, linkedTo: map[*FuncInfo]*ast.CallExpr{}, successRet: map[*ast.CallExpr]*ast.ReturnStmt{}, requested: map[string]bool{}, idx: map[*packages.Package]*pkgIndex{}}
 	for _, p := range pkgs {
 		if len(p.Errors) > 0 {
 			return nil, fmt.Errorf("package %s has errors: %v", p.PkgPath, p.Errors[0])
@@ -97,6 +101,11 @@ func loadCtx(repo, tier string, extraEnv []string, buildFlags []string) (*Ctx, e
 		return nil, err
 	}
 	c.Renamed = notes
+	snotes, err := specialise(map[string]*packages.Package{pathRoot: c.Root, pathW: c.W, pathCmd: c.Cmd})
+	if err != nil {
+		return nil, err
+	}
+	c.Renamed = append(c.Renamed, snotes...)
 	for _, p := range []*packages.Package{c.Root, c.W, c.Cmd} {
 		for _, f := range p.Syntax {
 			for _, d := range f.Decls {
@@ -109,7 +118,7 @@ func loadCtx(repo, tier string, extraEnv []string, buildFlags []string) (*Ctx, e
 					continue
 				}
 				if c.idx[p] == nil {
-					c.idx[p] = &pkgIndex{parent: map[ast.Node]ast.Node{}, defs: map[*types.Var][]defSite{}}
+					c.idx[p] = &pkgIndex{parent: map[ast.Node]ast.Node{}, defs: map[*types.Var][]defSite{}, results: map[*types.Var]bool{}}
 				}
 				fi := newFuncInfo(c, p, fd, obj)
 				c.funcs[p.PkgPath+"::"+fi.Name] = fi
@@ -223,6 +232,28 @@ func (c *Ctx) link(anchors map[string]bool) {
 					}
 				}
 				i++
+			}
+		}
+		// results: `a, b, ok := h(x)` where h has exactly one return that reports success —
+		// a and b are then defined by that return's operands, and a passed test of ok
+		// carries the conditions under which that return is reached (Guards)
+		if nres := sig.Results().Len(); nres >= 2 {
+			if as, ok := s.from.parent[s.call].(*ast.AssignStmt); ok && len(as.Rhs) == 1 && len(as.Lhs) == nres {
+				if S := uniqueSuccessReturn(h, nres); S != nil {
+					c.successRet[s.call] = S
+					for i := 0; i < nres-1; i++ {
+						v := s.from.varOf(as.Lhs[i])
+						if v == nil {
+							continue
+						}
+						ds := s.from.defs[v]
+						for j := range ds {
+							if ds[j].rhs == ast.Expr(s.call) && ds[j].idx == i {
+								ds[j].rhs, ds[j].idx = S.Results[i], -1
+							}
+						}
+					}
+				}
 			}
 		}
 		if h.Decl.Recv != nil && len(h.Decl.Recv.List) == 1 && len(h.Decl.Recv.List[0].Names) == 1 {
@@ -412,4 +443,35 @@ func (c *Ctx) linkedNames() []string {
 	}
 	sort.Strings(out)
 	return out
+}
+
+// uniqueSuccessReturn returns the single return statement of h whose last
+// operand reports success (the literal true, or nil for an error), provided
+// every other return reports failure explicitly (false / a non-nil error
+// expression). Otherwise nil.
+func uniqueSuccessReturn(h *FuncInfo, nres int) *ast.ReturnStmt {
+	var succ *ast.ReturnStmt
+	for _, r := range h.returnsOf() {
+		if len(r.Results) != nres {
+			return nil
+		}
+		last := ast.Unparen(r.Results[nres-1])
+		id, isId := last.(*ast.Ident)
+		switch {
+		case isId && (id.Name == "true" || id.Name == "nil") && h.Info.Uses[id] != nil && h.Info.Uses[id].Pkg() == nil:
+			if succ != nil {
+				return nil
+			}
+			succ = r
+		case isId && id.Name == "false" && h.Info.Uses[id] != nil && h.Info.Uses[id].Pkg() == nil:
+		case !isId && isErrorType(h.Info.TypeOf(last)):
+			// a constructed error
+		default:
+			if _, isCall := last.(*ast.CallExpr); isCall && isErrorType(h.Info.TypeOf(last)) {
+				continue
+			}
+			return nil
+		}
+	}
+	return succ
 }
